@@ -648,9 +648,15 @@ func CheckMain(args []string) {
 		cov[k] = v
 	}
 	ev["coverage"] = cov
-	os.MkdirAll(filepath.Join(*root, "evidence"), 0o755)
+	evDir := filepath.Join(*root, "evidence")
+	if d := os.Getenv("VERIF_EVIDENCE_DIR"); d != "" {
+		// runs against deliberately broken trees (scripts/mutant.sh) must not
+		// overwrite the evidence of the unchanged tree
+		evDir = d
+	}
+	os.MkdirAll(evDir, 0o755)
 	eb, _ := json.MarshalIndent(ev, "", " ")
-	if err := os.WriteFile(filepath.Join(*root, "evidence", *prop+".json"), eb, 0o644); err != nil {
+	if err := os.WriteFile(filepath.Join(evDir, *prop+".json"), eb, 0o644); err != nil {
 		fmt.Fprintln(os.Stderr, "write evidence:", err)
 		os.Exit(2)
 	}
